@@ -259,7 +259,13 @@ func fields() []field {
 		val{"wildcard", func(c *config.Config) { r0(c).Host = []string{"*"} }},
 	)
 	var backends []val
-	for _, b := range [][]string{nil, {}, {"localhost"}, {"10.0.0.1:25565"}, {"host:abc"}, {"host:"}, {"$1.svc:25565"}, {"$1.svc:abc"}, {"[::1]:25565"}, {"::1"}, {"[::1"}, {"localhost:25566", "host:abc"}, {"a:1:2"}, {"host:25565x"}, {"host:-1"}, {"host:+1"}} {
+	for _, b := range [][]string{nil, {}, {"localhost"}, {"10.0.0.1:25565"}, {"host:abc"}, {"host:"}, {"$1.svc:25565"}, {"$1.svc:abc"}, {"[::1]:25565"}, {"::1"}, {"[::1"}, {"localhost:25566", "host:abc"}, {"a:1:2"}, {"host:25565x"}, {"host:-1"}, {"host:+1"},
+		// '$' in backends. Documented: "$1, $2, etc." parameters are substituted from the host's
+		// wildcards, so an address that only fails to parse because of such a parameter is exempt.
+		// A '$' that is not followed by a digit is not a parameter: no exemption.
+		{"backend.local:$PORT"}, {"backend.local:$"}, {"backend.local:${1}"}, {"[backend$:25565"}, {"host:$x1"}, {"localhost:25566", "backend.local:$PORT"},
+		{"host:$1"}, {"[$1:25565"}, {"svc:$10"}, {"$1.svc:$2"},
+		{"back$end:25565"}, {"$.svc:25565"}, {"host$"}, {"$0.svc:25565"}, {"$10.svc:25565"}, {"$1$2.svc"}} {
 		b := b
 		backends = append(backends, val{fmt.Sprintf("%q", b), func(c *config.Config) {
 			if b == nil {
@@ -292,6 +298,8 @@ func fields() []field {
 		val{"strategy=random", func(c *config.Config) { rLast(c).Strategy = "random" }},
 		val{"backend=host:abc", func(c *config.Config) { rLast(c).Backend = []string{"localhost:25566", "host:abc"} }},
 		val{"backend=none", func(c *config.Config) { rLast(c).Backend = nil }},
+		val{"backend=host:$PORT", func(c *config.Config) { rLast(c).Backend = []string{"backend.local:$PORT"} }},
+		val{"backend=host:$1", func(c *config.Config) { rLast(c).Backend = []string{"backend.local:$1"} }},
 		val{"host=none", func(c *config.Config) { rLast(c).Host = nil }},
 		val{"host=two", func(c *config.Config) { rLast(c).Host = []string{"c.example.test", "d.example.test"} }},
 	)
